@@ -42,6 +42,10 @@ func (i *ipfsAccessController) CanAppend(entry logac.LogEntry, p identityprovide
 	i.muWriteAccess.RLock()
 	defer i.muWriteAccess.RUnlock()
 
+	if err := accesscontroller.VerifyEntryIdentity(entry); err != nil {
+		return fmt.Errorf("not allowed: %w", err)
+	}
+
 	key := entry.GetIdentity().ID
 	for _, allowedKey := range i.writeAccess {
 		if allowedKey == key || allowedKey == "*" {
